@@ -10,7 +10,7 @@ RULE = ("symbolic execution (z3) of the real poll functions (coroutine state mac
 
 def check(run, only=None):
     p = 2 if run.tier == "quick" else 3
-    e3.run_parts(run, ["dispatcher", "ruleset", "two_calls"], only=only, pendings=p)
+    e3.run_parts(run, ["dispatcher", "ruleset", "two_calls", "calling_rules", "paths"], only=only, pendings=p)
     run.extra["bounds"] = {"pending_polls_per_await": p}
     run.assumptions += ["a suspended evaluation is resumed by polling the same future again (the contract of Future); wakers are not modelled"]
     run.outside_claim += ["true concurrency (threads): the executor explores poll schedules of ONE evaluation; that evaluations cannot influence each other "
